@@ -637,6 +637,95 @@ func c20(r *core.Run) {
 						}
 					}
 				}
+				// the decoded value that is returned / handed to the index listeners is assigned on every
+				// path: when it lives in a variable shared with the transaction body, the body assigns it under
+				// the same "indexes configured" condition under which the outer function relies on it
+				for _, ret := range core.Returns(m) {
+					if len(ret.Results) != 2 || !isNilConst(ret.Results[1]) {
+						continue
+					}
+					ld, ok := ret.Results[0].(*ssa.UnOp)
+					if !ok || ld.Op != token.MUL {
+						// a plain local: no source may be the zero value
+						if _, isPhi := ret.Results[0].(*ssa.Phi); isPhi {
+							unassigned := false
+							for _, src := range phiSources(ret.Results[0]) {
+								if isNilConst(src.V) {
+									unassigned = true
+								}
+							}
+							r.Check(!unassigned, "D1", core.FuncName(m), "deleted-value-assigned-on-every-path", p.InstrPos(ret), "the value returned was assigned on every path to the success return", "a path reaches the success return with the returned value still nil (e.g. the transaction body assigns a shadowing local): delete listeners and index listeners receive nil instead of the deleted value")
+						}
+						continue
+					}
+					cellV, ok := ld.X.(*ssa.Alloc)
+					if !ok {
+						continue
+					}
+					// condition under which the body stores to the cell
+					var bodyCond *core.Field
+					bodyStores := false
+					for _, b := range cl.Blocks {
+						for _, in := range b.Instrs {
+							st, ok := in.(*ssa.Store)
+							if !ok {
+								continue
+							}
+							fv, ok := st.Addr.(*ssa.FreeVar)
+							if !ok || core.BindingOf(fv) != ssa.Value(cellV) {
+								continue
+							}
+							bodyStores = true
+							for _, ed := range dominatingEdges(st) {
+								ci := core.Cond(ed.If.Cond)
+								if ci.Kind == "nilcmp" && ci.HasFld {
+									truth := ed.Succ == 0
+									if ci.Negate {
+										truth = !truth
+									}
+									if (ci.Op == token.NEQ) == truth {
+										f := ci.Field
+										bodyCond = &f
+									}
+								}
+							}
+						}
+					}
+					fl := &core.Flow{Fn: m, Entry: core.StateSet(0).Add(0)}
+					fl.Transfer = func(in ssa.Instruction, st int) core.StateSet {
+						if s2, ok := in.(*ssa.Store); ok && s2.Addr == ssa.Value(cellV) {
+							return core.StateSet(0).Add(1)
+						}
+						if c, ok := in.(*ssa.Call); ok && isBadgerCall(c, "DB", "Update") && bodyStores && st == 0 {
+							if bodyCond == nil {
+								return core.StateSet(0).Add(1)
+							}
+							return core.StateSet(0).Add(2) // assigned iff the field is non-nil
+						}
+						return core.StateSet(0).Add(st)
+					}
+					fl.BranchOn = func(cond ssa.Value, succ int, st int) (int, bool) {
+						if st != 2 || bodyCond == nil {
+							return st, true
+						}
+						ci := core.Cond(cond)
+						if ci.Kind == "nilcmp" && ci.HasFld && ci.Field == *bodyCond {
+							truth := succ == 0
+							if ci.Negate {
+								truth = !truth
+							}
+							if (ci.Op == token.NEQ) == truth {
+								return 1, true
+							}
+							return 0, true
+						}
+						return st, true
+					}
+					fl.Branch = func(iff *ssa.If, succ int, st int) (int, bool) { return fl.BranchOn(iff.Cond, succ, st) }
+					res := fl.Run()
+					st := res.Before[ret]
+					r.Check(!st.Empty() && st.Only(1), "D1", core.FuncName(m), "deleted-value-assigned-on-every-path", p.InstrPos(ret), "the value returned and handed to the listeners was assigned on every path to the success return", "a path reaches the success return without the returned value having been assigned (e.g. the transaction body assigns a shadowing local): delete listeners and index listeners receive nil instead of the deleted value")
+				}
 				r.Check(cellOK, "D1", core.FuncName(m), "returns-the-bytes-read-in-the-transaction", p.Pos(m.Pos()), "the returned data is unmarshalled from what the transaction read", "delete returns data that is not what the transaction read")
 			}
 		}
